@@ -5,7 +5,7 @@ pub enum Bk {
     Stack(usize),
     StackN(usize, usize),
     Empty,
-    Reloc,
+    Reloc(usize),
 }
 #[derive(Clone, Copy, Debug, PartialEq)]
 pub enum Api {
@@ -132,7 +132,8 @@ pub fn parse_bk(s: &str) -> Bk {
         ["stack", n] => Bk::Stack(u(n)),
         ["stackn", n, sz] => Bk::StackN(u(n), u(sz)),
         ["empty"] => Bk::Empty,
-        ["reloc"] => Bk::Reloc,
+        ["reloc"] => Bk::Reloc(0),
+        ["reloc", c0] => Bk::Reloc(u(c0)),
         _ => panic!("bad backend {:?}", s),
     }
 }
